@@ -1,13 +1,13 @@
 #!/bin/sh
 # process every delivered seeded change not yet verified, 4 properties at a time; log to /tmp/sv/queue.log
 mkdir -p /tmp/sv
-ls -d /tmp/seed/C*-out | sed 's#.*/##; s/-out//' | xargs -P 4 -I{} sh -c '
+ls -d ${SEED_ROOT:-/tmp/seed}/C*-out | sed 's#.*/##; s/-out//' | xargs -P 4 -I{} sh -c '
   p={}
-  for d in /tmp/seed/$p-out/m*; do
+  for d in ${SEED_ROOT:-/tmp/seed}/$p-out/m*; do
     [ -f "$d/patch.diff" ] || continue
     m=$(basename $d)
-    [ -f "/tmp/sv/$p-$m.json" ] && continue
-    python3 /verif/tools/seedverify.py $p $m > /tmp/sv/$p-$m.json 2>&1
-    { echo "=== $p $m $(date +%T)"; tail -25 /tmp/sv/$p-$m.json | grep -E "confirmed|detected|^  C"; } >> /tmp/sv/queue.log
+    [ -f "/tmp/sv/${SEED_TAG:-m}-$p-$m.json" ] && continue
+    python3 /verif/tools/seedverify.py $p $m > /tmp/sv/${SEED_TAG:-m}-$p-$m.json 2>&1
+    { echo "=== $p $m $(date +%T)"; tail -25 /tmp/sv/${SEED_TAG:-m}-$p-$m.json | grep -E "confirmed|detected|^  C"; } >> /tmp/sv/queue.log
   done'
 echo "=== queue pass done $(date +%T)" >> /tmp/sv/queue.log
